@@ -1320,7 +1320,7 @@ func (g *Gen) returnClauses(fr *Frame, st *State, x *ssa.Return, vs []Val, r str
 			continue
 		}
 		g.addObligation(&Obligation{Name: fmt.Sprintf("%s.return#%d.%s", fr.key, k, cl.Name), Func: fr.key, Kind: "returns", Props: cl.Props,
-			Guard: r, Goal: v, Src: cl.Src, Pos: g.posOf(x)})
+			Guard: r, Goal: v, Src: cl.Src, Pos: g.posOf(x), Clause: cl})
 	}
 }
 
